@@ -40,6 +40,8 @@ theorem Fired.split {k : Nat} {d d' d'' : Dev} (h : Fired k d d'') : Fired k d d
 
 structure Uniform {α} (x : M α) : Prop where
   mono : ∀ fa d, d.calls ≤ (x fa d).2.calls
+  /-- the kind of error the device fails with is a property of the device: no computation changes it -/
+  kind : ∀ fa d, (x fa d).2.fkind = d.fkind
   dich : ∀ k d, (x (some k) d = x none d ∧ (k < d.calls ∨ (x none d).2.calls ≤ k)) ∨
                 (Fired k d (x (some k) d).2 ∧ Fired k d (x none d).2)
 
@@ -66,7 +68,7 @@ theorem Uniform.fired_none {α} {x : M α} (h : Uniform x) {k : Nat} {d : Dev}
 /-! ### `Uniform`: closure -/
 
 theorem Uniform.const {α} (o : Out α) : Uniform (fun _ d => (o, d) : M α) :=
-  ⟨fun _ _ => Nat.le_refl _, fun k d => by
+  ⟨fun _ _ => Nat.le_refl _, fun _ _ => rfl, fun k d => by
       by_cases hk : k < d.calls
       · exact Or.inl ⟨rfl, Or.inl hk⟩
       · exact Or.inl ⟨rfl, Or.inr (by show d.calls ≤ k; omega)⟩⟩
@@ -87,7 +89,18 @@ theorem Uniform.bind {α β} {x : M α} {f : α → M β} (hx : Uniform x) (hf :
       | ok a => exact (hf a).mono fa d'
       | err e => exact Nat.le_refl _
       | panic s => exact Nat.le_refl _
-  refine ⟨fun fa d => Nat.le_trans (hx.mono fa d) (hge fa d), ?_⟩
+  have hkd : ∀ fa d, ((x >>= f) fa d).2.fkind = d.fkind := by
+    intro fa d
+    rw [M.bind_apply]
+    have hk := hx.kind fa d
+    cases h : x fa d with
+    | mk o d' =>
+      rw [h] at hk
+      cases o with
+      | ok a => exact ((hf a).kind fa d').trans hk
+      | err e => exact hk
+      | panic s => exact hk
+  refine ⟨fun fa d => Nat.le_trans (hx.mono fa d) (hge fa d), hkd, ?_⟩
   · intro k d
     rcases hx.dich k d with ⟨heq, hw⟩ | ⟨h1, h2⟩
     · have hm := hx.mono none d
@@ -118,23 +131,30 @@ theorem Uniform.attempt {α} {x : M α} (hx : Uniform x) : Uniform (M.attempt x)
     rw [M.attempt_apply]
     cases h : x fa d with
     | mk o d' => cases o <;> rfl
-  refine ⟨fun fa d => by rw [hd]; exact hx.mono fa d, ?_⟩
+  refine ⟨fun fa d => by rw [hd]; exact hx.mono fa d, fun fa d => by rw [hd]; exact hx.kind fa d, ?_⟩
   · intro k d
     rw [hd, hd]
     rcases hx.dich k d with ⟨heq, hw⟩ | h
     · exact Or.inl ⟨by rw [M.attempt_apply, M.attempt_apply, heq], hw⟩
     · exact Or.inr h
 
-/-- One primitive: `f` must leave the call counter alone. -/
-theorem Uniform.prim {α} {f : Dev → Out α × Dev} (hc : ∀ d, (f d).2.calls = d.calls) :
+/-- One primitive: `f` must leave the call counter and the device's error kind alone. -/
+theorem Uniform.prim {α} {f : Dev → Out α × Dev} (hc : ∀ d, (f d).2.calls = d.calls)
+    (hk : ∀ d, (f d).2.fkind = d.fkind) :
     Uniform (M.prim f) := by
-  refine ⟨?_, ?_⟩
+  refine ⟨?_, ?_, ?_⟩
   · intro fa d
     unfold M.prim
     dsimp only
     split
     · exact Nat.le_succ _
     · rw [hc]; exact Nat.le_succ _
+  · intro fa d
+    unfold M.prim
+    dsimp only
+    split
+    · rfl
+    · rw [hk]
   · intro k d
     unfold M.prim
     dsimp only
@@ -150,13 +170,19 @@ theorem Uniform.prim {α} {f : Dev → Out α × Dev} (hc : ∀ d, (f d).2.calls
 
 /-! ### `Clean` / `Tight` -/
 
-/-- When the fault fires inside `x`, `x` returns the injected error itself. -/
+/-- When the fault fires inside `x`, `x` returns the injected error itself: an I/O error of the kind the
+device fails with (`Dev.fkind`, which no primitive changes) — whatever that kind is. -/
 def Clean {α} (x : M α) : Prop :=
-  ∀ k d, Fired k d (x (some k) d).2 → (x (some k) d).1 = .err (.io .injected)
+  ∀ k d, Fired k d (x (some k) d).2 → (x (some k) d).1 = .err (.io (x (some k) d).2.fkind)
 
 structure Tight {α} (x : M α) : Prop where
   uni : Uniform x
   clean : Clean x
+
+/-- … which, the kind being a device property (`Uniform.kind`), is the kind of the device the call started on. -/
+theorem Tight.reports {α} {x : M α} (h : Tight x) {k : Nat} {d : Dev}
+    (hf : Fired k d (x (some k) d).2) : (x (some k) d).1 = .err (.io d.fkind) := by
+  rw [h.clean k d hf, h.uni.kind]
 
 theorem Clean.const {α} (o : Out α) : Clean (fun _ d => (o, d) : M α) :=
   fun _ _ h => absurd h Fired.self
@@ -180,16 +206,17 @@ theorem Clean.bind {α β} {x : M α} {f : α → M β} (hx : Uniform x) (cx : C
       by_cases hfx : Fired k d d'
       · exact absurd (c1 hfx) (by intro h; cases h)
       · exact cf a k d' (by unfold Fired at *; omega)
-    | err e => dsimp only at hf c1 ⊢; cases c1 hf; rfl
+    | err e => dsimp only at hf c1 ⊢; have := c1 hf; cases this; rfl
     | panic s => dsimp only at hf c1 ⊢; cases c1 hf
 
 theorem Tight.bind {α β} {x : M α} {f : α → M β} (hx : Tight x) (hf : ∀ a, Tight (f a)) :
     Tight (x >>= f) :=
   ⟨Uniform.bind hx.uni fun a => (hf a).uni, Clean.bind hx.uni hx.clean fun a => (hf a).clean⟩
 
-theorem Tight.prim {α} {f : Dev → Out α × Dev} (hc : ∀ d, (f d).2.calls = d.calls) :
+theorem Tight.prim {α} {f : Dev → Out α × Dev} (hc : ∀ d, (f d).2.calls = d.calls)
+    (hk : ∀ d, (f d).2.fkind = d.fkind) :
     Tight (M.prim f) := by
-  refine ⟨Uniform.prim hc, ?_⟩
+  refine ⟨Uniform.prim hc hk, ?_⟩
   intro k d hf
   unfold M.prim at hf ⊢
   dsimp only at hf ⊢
@@ -202,15 +229,16 @@ theorem Tight.prim {α} {f : Dev → Out α × Dev} (hc : ∀ d, (f d).2.calls =
     dsimp only at hf
     omega
 
-theorem Tight.read (n : Nat) : Tight (M.read n) := Tight.prim (fun _ => rfl)
-theorem Tight.write (bs : Bytes) : Tight (M.write bs) := Tight.prim (fun _ => rfl)
-theorem Tight.flush : Tight M.flush := Tight.prim (fun _ => rfl)
+theorem Tight.read (n : Nat) : Tight (M.read n) := Tight.prim (fun _ => rfl) (fun _ => rfl)
+theorem Tight.write (bs : Bytes) : Tight (M.write bs) := Tight.prim (fun _ => rfl) (fun _ => rfl)
+theorem Tight.flush : Tight M.flush := Tight.prim (fun _ => rfl) (fun _ => rfl)
 theorem Tight.seek (s : SeekFrom) : Tight (M.seek s) := by
   apply Tight.prim
-  intro d; cases s <;> dsimp only <;> split <;> rfl
+  · intro d; cases s <;> dsimp only <;> split <;> rfl
+  · intro d; cases s <;> dsimp only <;> split <;> rfl
 /-- `getDev` makes no I/O call. -/
 theorem Tight.getDev : Tight M.getDev :=
-  ⟨⟨fun _ _ => Nat.le_refl _, fun k d => by
+  ⟨⟨fun _ _ => Nat.le_refl _, fun _ _ => rfl, fun k d => by
       by_cases hk : k < d.calls
       · exact Or.inl ⟨rfl, Or.inl hk⟩
       · exact Or.inl ⟨rfl, Or.inr (by show d.calls ≤ k; omega)⟩⟩,
@@ -247,9 +275,10 @@ theorem ErrOnFire.bind {α β} {x : M α} {f : α → M β} (hx : Uniform x) (cx
     | err e => exact ⟨e, rfl⟩
     | panic s => obtain ⟨e, he⟩ := c1 hf; cases he
 
-/-- `attempt m >>= h` where `h` sends the injected error on as an error: the fault is not swallowed. -/
+/-- `attempt m >>= h` where `h` sends the injected error on as an error — WHATEVER its kind: the fault is not
+swallowed. -/
 theorem ErrOnFire.attempt_bind {α β} {m : M α} {h : Except ZErr α → M β} (hm : Tight m)
-    (hinj : ∃ e', h (.error (.io .injected)) = M.throw e') (hh : ∀ r, ErrOnFire (h r)) :
+    (hinj : ∀ κ, ∃ e', h (.error (.io κ)) = M.throw e') (hh : ∀ r, ErrOnFire (h r)) :
     ErrOnFire (M.attempt m >>= h) := by
   intro k d hf
   have c1 := hm.clean k d
@@ -262,7 +291,7 @@ theorem ErrOnFire.attempt_bind {α β} {m : M α} {h : Except ZErr α → M β} 
     · have := c1 hfx
       dsimp only at this
       subst this
-      obtain ⟨e', he'⟩ := hinj
+      obtain ⟨e', he'⟩ := hinj d'.fkind
       dsimp only
       rw [he']
       exact ⟨e', rfl⟩
@@ -275,10 +304,12 @@ theorem ErrOnFire.pure {α} (a : α) : ErrOnFire (Pure.pure a : M α) := ErrOnFi
 theorem ErrOnFire.throw {α} (e : ZErr) : ErrOnFire (M.throw e : M α) := ErrOnFire.const _
 theorem ErrOnFire.panic {α} (s : String) : ErrOnFire (M.panic s : M α) := ErrOnFire.const _
 
-/-- `attempt m >>= h` where `h` rethrows the injected error unchanged (it may swallow *other* errors,
-e.g. `if let Err(InvalidArchive) = … { None }`): still `Clean` — an injected fault is never swallowed. -/
+/-- `attempt m >>= h` where `h` rethrows every I/O error unchanged, whatever its kind (it may swallow errors that
+are not I/O errors, e.g. `if let Err(InvalidArchive) = … { None }`): still `Clean` — an injected fault is never
+swallowed.  (A handler that tells I/O error kinds apart — `Err(e) if e.kind() == InvalidInput => None` — does
+NOT satisfy `hinj`: the device may fail with exactly that kind.) -/
 theorem Clean.attempt_bind {α β} {m : M α} {h : Except ZErr α → M β} (hm : Tight m)
-    (hinj : h (.error (.io .injected)) = M.throw (.io .injected)) (hh : ∀ r, Clean (h r)) :
+    (hinj : ∀ κ, h (.error (.io κ)) = M.throw (.io κ)) (hh : ∀ r, Clean (h r)) :
     Clean (M.attempt m >>= h) := by
   intro k d hf
   have c1 := hm.clean k d
@@ -300,7 +331,7 @@ theorem Clean.attempt_bind {α β} {m : M α} {h : Except ZErr α → M β} (hm 
       | panic s => exact absurd hf hfx
 
 theorem Tight.attempt_bind {α β} {m : M α} {h : Except ZErr α → M β} (hm : Tight m)
-    (hinj : h (.error (.io .injected)) = M.throw (.io .injected)) (hh : ∀ r, Tight (h r)) :
+    (hinj : ∀ κ, h (.error (.io κ)) = M.throw (.io κ)) (hh : ∀ r, Tight (h r)) :
     Tight (M.attempt m >>= h) :=
   ⟨Uniform.bind (Uniform.attempt hm.uni) fun r => (hh r).uni,
    Clean.attempt_bind hm hinj fun r => (hh r).clean⟩
@@ -444,8 +475,8 @@ macro_rules | `(tactic| fault_step) => `(tactic| with_reducible apply Uniform.bi
 macro_rules | `(tactic| fault_step) => `(tactic| with_reducible apply Tight.bind)
 macro_rules | `(tactic| fault_step) => `(tactic| with_reducible apply ErrOnFire.bind)
 macro_rules | `(tactic| fault_step) => `(tactic| focus (refine Tight.errOnFire ?_; fault_step; done))
-macro_rules | `(tactic| fault_step) => `(tactic| ((with_reducible apply ErrOnFire.attempt_bind); (case hinj => exact ⟨_, rfl⟩)))
-macro_rules | `(tactic| fault_step) => `(tactic| ((with_reducible apply Tight.attempt_bind); (case hinj => rfl)))
+macro_rules | `(tactic| fault_step) => `(tactic| ((with_reducible apply ErrOnFire.attempt_bind); (case hinj => (intro κ; cases κ <;> exact ⟨_, rfl⟩))))
+macro_rules | `(tactic| fault_step) => `(tactic| ((with_reducible apply Tight.attempt_bind); (case hinj => (intro κ; cases κ <;> rfl))))
 macro_rules | `(tactic| fault_step) => `(tactic| focus (refine Tight.uni ?_; fault_step; done))
 macro_rules | `(tactic| fault_step) => `(tactic| with_reducible apply StepOK.bind)
 macro_rules | `(tactic| fault_step) => `(tactic| with_reducible apply Uniform.attempt)
